@@ -78,6 +78,16 @@ def run(c):
     # one handler per receive queue under concurrent pushers (model: Proto/RecvLock.v): goroutine identities inside the
     # frame loop, per-sender order and exactly-once at the receiving core; Lock() callers are released pairwise at the
     # same instant so that a Lock() that is not one atomic swap is exercised
+    # the write side of a link on its own: real lib.NewFlusher against a recording writer (model Proto/Flusher.v)
+    if c.replay and _replay_engine(c.replay).startswith("flusher"):
+        out = c.harness("proto", ["flusher", "-replay", c.replay], timeout=600)
+        if out:
+            c.monitor("flusher", out)
+        return
+    if not c.replay:
+        out = c.harness("proto", ["flusher", "-n", "150" if c.tier == "quick" else "3000"], timeout=900)
+        if out:
+            c.monitor("flusher", out)
     if c.replay and _replay_engine(c.replay).startswith("lockrace"):
         _lockrace(c, 1, replay=c.replay)
     elif not c.replay:
